@@ -71,6 +71,18 @@ CLAIMED["C12"] = dict(
          "CER/CEA, ULR/ULA (+STR/STA, plain messages in thorough). Outside: answers lacking a Session-Id AVP for a request "
          "that has one; multiples of 1000.")
 
+CLAIMED["C01"] = dict(
+    level="model_checking", technique=E1, design="6/C01",
+    text="Differential bounded model checking of the real encoder against a 25-line reference RFC 6733 encoder fed the "
+         "same logical content: header fields (all values), generic AVP code/flags/vendor/data, messages of generic AVPs "
+         "over every length residue, every Grouped and custom-logic dictionary class plus one class per (type, vendor-ness) "
+         "with symbolic leaf values (all 206 classes x residues in thorough), nested Grouped AVPs to depth 3/4, flag-setter "
+         "sequences, Request/Answer constructors. Each query is one bytes equality over symbolic content; CrossHair closes "
+         "every path, counterexamples are replayed natively.",
+    note="Trusted: CrossHair, z3, the reference encoder, the frozen reference dictionary (ref/avp_dictionary.json). One "
+         "dimension is symbolic per query; shapes and lengths are grid parameters (data <= 9 bytes per leaf, <= 3 top-level "
+         "AVPs, depth <= 4). Typed command classes are covered by C09 with the same oracle.")
+
 PENDING_REASON = "check not built yet in this session (planned in DESIGN.md section 6); no claim is made"
 NOT_APPLICABLE = {}
 
